@@ -3,7 +3,8 @@
         script = entries separated by ';', entry = <label>=<action>,<action>,...   ("-" = empty script)
         label  = init | ready | alive<j> | req<j> | hdr<j> | pay<j> | shutdown | wait1 | wait2
         action = d<bytes-hex> | ci | co | x<code> | k
-     -> <status> <err> <done> <orphans 0|1> <all_reaped 0|1> <wf 0|1>
+     -> <status> <err> <done> <orphans 0|1> <all_reaped 0|1> <wf 0|1> <stderr-hex | ->
+        stderr = the bytes the model says reach stderr when the reported error text came from the peer (FFI_ERROR), else -
         status = exit0 | exit1 | sig13:<label> | sig11 | hang:<label>
         err    = - | ser<i> | req_died | resp_died | payload | deser | msg | badtype *)
 let label_of (s : ostring) : label =
@@ -45,6 +46,9 @@ let () = iter_lines (fun line ->
         | SExit0 -> "exit0" | SExit1 -> "exit1" | SKilled l -> "sig13:" ^ show_label l | SCrash -> "sig11"
         | SHang l -> "hang:" ^ show_label l in
       print_string (String.concat " " [st; show_err o.o_err; string_of_int (int_of_n o.o_done); b01 (orphans o.o_world);
-                                       b01 (all_reaped o.o_world); b01 (wfb o.o_vm o.o_world)] ^ "\n")
+                                       b01 (all_reaped o.o_world); b01 (wfb o.o_vm o.o_world);
+                                       (match o.o_err with
+                                        | Some e -> (match stderr_report e with Some bs -> hex_of_bytes bs | None -> "-")
+                                        | None -> "-")] ^ "\n")
   | [] -> ()
   | _ -> print_string "bad\n")
